@@ -172,9 +172,12 @@ func (v *Val) Cap() *Term { return v.L[3] }
 func (v *Val) Tag() *Term  { return v.L[0] }
 func (v *Val) IVal() *Term { return v.L[1] }
 
-func isSlice(t types.Type) bool  { _, ok := t.Underlying().(*types.Slice); return ok }
-func isIface(t types.Type) bool  { _, ok := t.Underlying().(*types.Interface); return ok }
-func isString(t types.Type) bool { b, ok := t.Underlying().(*types.Basic); return ok && b.Info()&types.IsString != 0 }
+func isSlice(t types.Type) bool { _, ok := t.Underlying().(*types.Slice); return ok }
+func isIface(t types.Type) bool { _, ok := t.Underlying().(*types.Interface); return ok }
+func isString(t types.Type) bool {
+	b, ok := t.Underlying().(*types.Basic)
+	return ok && b.Info()&types.IsString != 0
+}
 func isBool(t types.Type) bool {
 	b, ok := t.Underlying().(*types.Basic)
 	return ok && b.Info()&types.IsBoolean != 0
